@@ -238,3 +238,61 @@ def outcomeToText : Except Err (Option (Val Float)) → String
   | .error e => errToText e
 
 end Jsonata.Proto
+
+namespace Jsonata.Proto
+
+def numOpText : NumOp → String
+  | .add => "+" | .sub => "-" | .mul => "*" | .div => "/" | .mod => "%"
+def cmpOpText : CmpOp → String
+  | .eq => "=" | .ne => "!=" | .lt => "<" | .le => "<=" | .gt => ">" | .ge => ">=" | .in_ => "in"
+def boolOpText : BoolOp → String | .and_ => "and" | .or_ => "or"
+def sortDirText : SortDir → String | .default_ => "d" | .asc => "<" | .desc => ">"
+def paramOptText : ParamOpt → String | .none_ => "_" | .optional => "?" | .variadic => "+" | .contextable => "-"
+
+partial def paramToText : Param → String
+  | .mk t o subs => "(p " ++ toString t ++ " " ++ paramOptText o ++ String.join (subs.map fun s => " " ++ paramToText s) ++ ")"
+
+def numAtom (x : Float) : String :=
+  "n" ++ natToHex16 (if x.isNaN then 0x7ff8000000000000 else x.toBits.toNat)
+
+/-- the same text the Go harness prints for a jparse tree (harness/ser.go nodeSexp) -/
+partial def nodeToText : Node Float → String
+  | .str s => "(str s" ++ stringToHex s ++ ")"
+  | .num x => "(num " ++ numAtom x ++ ")"
+  | .bool b => if b then "(bool t)" else "(bool f)"
+  | .null => "(null)"
+  | .regex p => "(regex s" ++ stringToHex p ++ ")"
+  | .var n => "(var s" ++ stringToHex n ++ ")"
+  | .name v => "(name s" ++ stringToHex v ++ ")"
+  | .path steps keep => "(path " ++ (if keep then "K" else "k") ++ many steps ++ ")"
+  | .neg r => "(neg " ++ nodeToText r ++ ")"
+  | .range l r => "(range " ++ nodeToText l ++ " " ++ nodeToText r ++ ")"
+  | .array items => "(array" ++ many items ++ ")"
+  | .object pairs => "(object" ++ manyPairs pairs ++ ")"
+  | .block es => "(block" ++ many es ++ ")"
+  | .wildcard => "(wild)"
+  | .descendent => "(desc)"
+  | .transform p u d => "(transform " ++ nodeToText p ++ " " ++ nodeToText u ++
+      (match d with | some x => " " ++ nodeToText x | none => "") ++ ")"
+  | .lambda ps body => "(lambda " ++ names ps ++ " " ++ nodeToText body ++ ")"
+  | .typedLambda ps sig body => "(tlambda " ++ names ps ++ " (sig" ++ String.join (sig.map fun p => " " ++ paramToText p) ++ ") " ++ nodeToText body ++ ")"
+  | .partial_ f args => "(partial " ++ nodeToText f ++ many args ++ ")"
+  | .placeholder => "(ph)"
+  | .call f args => "(call " ++ nodeToText f ++ many args ++ ")"
+  | .predicate e fs => "(pred " ++ nodeToText e ++ many fs ++ ")"
+  | .group e pairs => "(group " ++ nodeToText e ++ manyPairs pairs ++ ")"
+  | .cond c t e => "(cond " ++ nodeToText c ++ " " ++ nodeToText t ++ (match e with | some x => " " ++ nodeToText x | none => "") ++ ")"
+  | .assign n v => "(assign s" ++ stringToHex n ++ " " ++ nodeToText v ++ ")"
+  | .numop op l r => "(numop " ++ numOpText op ++ " " ++ nodeToText l ++ " " ++ nodeToText r ++ ")"
+  | .cmpop op l r => "(cmpop " ++ cmpOpText op ++ " " ++ nodeToText l ++ " " ++ nodeToText r ++ ")"
+  | .boolop op l r => "(boolop " ++ boolOpText op ++ " " ++ nodeToText l ++ " " ++ nodeToText r ++ ")"
+  | .concat l r => "(concat " ++ nodeToText l ++ " " ++ nodeToText r ++ ")"
+  | .sort e terms => "(sort " ++ nodeToText e ++ String.join (terms.map fun (d, x) => " (term " ++ sortDirText d ++ " " ++ nodeToText x ++ ")") ++ ")"
+  | .apply l r => "(apply " ++ nodeToText l ++ " " ++ nodeToText r ++ ")"
+where
+  many (ns : List (Node Float)) : String := String.join (ns.map fun n => " " ++ nodeToText n)
+  manyPairs (ps : List (Node Float × Node Float)) : String :=
+    String.join (ps.map fun (k, v) => " " ++ nodeToText k ++ " " ++ nodeToText v)
+  names (ps : List String) : String := "(params" ++ String.join (ps.map fun n => " s" ++ stringToHex n) ++ ")"
+
+end Jsonata.Proto
